@@ -522,6 +522,15 @@ class Randomizer(RandIF):
 
     
     @staticmethod
+    def _abort_call(f):
+        """Lists drop the elements that were added for the aborted call"""
+        if hasattr(f, "abort_randomize"):
+            f.abort_randomize()
+        if hasattr(f, "field_l"):
+            for c in f.field_l:
+                Randomizer._abort_call(c)
+    
+    @staticmethod
     def do_randomize(
             randstate,
             srcinfo : SourceInfo,
@@ -548,65 +557,67 @@ class Randomizer(RandIF):
             for fm in field_model_l:
                 print("  " + ModelPrettyPrinter.print(fm))
                 
-        # First, invoke pre_randomize on all elements
-        visited = []
-        for fm in field_model_l:
-            fm.pre_randomize(visited)
-            
-        if constraint_l is None:
-            constraint_l = []
-            
-        for c in constraint_l:
-            clear_soft_priority.clear(c)
-
-        # Collect all variables (pre-array) and establish bounds            
-        bounds_v = VariableBoundVisitor()
-        bounds_v.process(field_model_l, constraint_l, False)
-
-        # TODO: need to handle inline constraints that impact arrays
-        constraints_len = len(constraint_l)
-        for fm in field_model_l:
-            constraint_l.extend(ArrayConstraintBuilder.build(
-                fm, bounds_v.bound_m))
-            # Now, handle dist constraints
-            DistConstraintBuilder.build(randstate, fm)
-            
-        for c in constraint_l:
-            constraint_l.extend(ArrayConstraintBuilder.build(
-                c, bounds_v.bound_m))
-            # Now, handle dist constraints
-            DistConstraintBuilder.build(randstate, c)
-
-        # If we made changes during array remodeling,
-        # re-run bounds checking on the updated model
-#        if len(constraint_l) != constraints_len:
-        bounds_v.process(field_model_l, constraint_l)
-
-        if debug > 0:
-            print("Final Model:")        
-            for fm in field_model_l:
-                print("  " + ModelPrettyPrinter.print(fm))
-            for c in constraint_l:
-                print("  " + ModelPrettyPrinter.print(c, show_exp=True))
-
-#        if lint > 0:
-#            LintVisitor().lint(
-#                field_model_l,
-#                constraint_l)
-            
-
-        r = Randomizer(
-            randstate,
-            solve_info=solve_info,
-            debug=debug, 
-            lint=lint, 
-            solve_fail_debug=solve_fail_debug)
-#        if Randomizer._rng is None:
-#            Randomizer._rng = random.Random(random.randrange(sys.maxsize))
-        ri = RandInfoBuilder.build(field_model_l, constraint_l, Randomizer._rng)
-        
+        completed = False
         try:
+            # First, invoke pre_randomize on all elements
+            visited = []
+            for fm in field_model_l:
+                fm.pre_randomize(visited)
+            
+            if constraint_l is None:
+                constraint_l = []
+            
+            for c in constraint_l:
+                clear_soft_priority.clear(c)
+
+            # Collect all variables (pre-array) and establish bounds            
+            bounds_v = VariableBoundVisitor()
+            bounds_v.process(field_model_l, constraint_l, False)
+
+            # TODO: need to handle inline constraints that impact arrays
+            constraints_len = len(constraint_l)
+            for fm in field_model_l:
+                constraint_l.extend(ArrayConstraintBuilder.build(
+                    fm, bounds_v.bound_m))
+                # Now, handle dist constraints
+                DistConstraintBuilder.build(randstate, fm)
+            
+            for c in constraint_l:
+                constraint_l.extend(ArrayConstraintBuilder.build(
+                    c, bounds_v.bound_m))
+                # Now, handle dist constraints
+                DistConstraintBuilder.build(randstate, c)
+
+            # If we made changes during array remodeling,
+            # re-run bounds checking on the updated model
+    #        if len(constraint_l) != constraints_len:
+            bounds_v.process(field_model_l, constraint_l)
+
+            if debug > 0:
+                print("Final Model:")        
+                for fm in field_model_l:
+                    print("  " + ModelPrettyPrinter.print(fm))
+                for c in constraint_l:
+                    print("  " + ModelPrettyPrinter.print(c, show_exp=True))
+
+    #        if lint > 0:
+    #            LintVisitor().lint(
+    #                field_model_l,
+    #                constraint_l)
+            
+
+            r = Randomizer(
+                randstate,
+                solve_info=solve_info,
+                debug=debug, 
+                lint=lint, 
+                solve_fail_debug=solve_fail_debug)
+    #        if Randomizer._rng is None:
+    #            Randomizer._rng = random.Random(random.randrange(sys.maxsize))
+            ri = RandInfoBuilder.build(field_model_l, constraint_l, Randomizer._rng)
+        
             r.randomize(ri, bounds_v.bound_m)
+            completed = True
         finally:
             # Rollback any constraints we've replaced for arrays
             if solve_info is not None:
@@ -614,6 +625,14 @@ class Randomizer(RandIF):
                 randomize_done(srcinfo, solve_info)
             for fm in field_model_l:
                 ConstraintOverrideRollbackVisitor.rollback(fm)
+            if not completed:
+                # The call ends with an exception (solve failure, or 
+                # an exception raised by user code or while elaborating 
+                # the constraints): leave nothing of it behind 
+                for fm in field_model_l:
+                    Randomizer._abort_call(fm)
+                    fm.set_used_rand(False, 0)
+                    fm.dispose()
 
         visited = [] 
         for fm in field_model_l:
